@@ -980,7 +980,7 @@ def run(tier="quick", seed=0):
         _check_alphabet()
     modes = ["utf8", "euc"]
     maxdepth = 2 if quick else 3
-    n_rand = {"utf8": 16000 if quick else 600000, "euc": 4000 if quick else 150000}
+    n_rand = {"utf8": 16000 if quick else 300000, "euc": 4000 if quick else 75000}
 
     scope = {}
     descs = []
@@ -1046,10 +1046,10 @@ def run(tier="quick", seed=0):
     for mode in modes:
         size, leaf_ids, d0, d1, d2 = scope[mode]
         dl = [k for k in leaf_ids if k != "orph"]  # see apply_delta: orphan zero-width characters have no column of their own
-        base = [e for e in d0 + d1 + d2[:: (9 if quick else 4)] if "orph" not in leaves_in(e)]
+        base = [e for e in d0 + d1 + d2[:: (9 if quick else 8)] if "orph" not in leaves_in(e)]
         if quick:
             base = base[::2]
-        same, anyl = delta_pairs(base, size, dl, base_rng, (3000 if quick else 150000) // (1 if mode == "utf8" else 4))
+        same, anyl = delta_pairs(base, size, dl, base_rng, (3000 if quick else 80000) // (1 if mode == "utf8" else 4))
         n_pairs += len(same) + len(anyl)
         for chk, pairs in ((dsame, same), (dany, anyl)):
             chk.bound += f"[{mode}] {len(pairs)} pairs from {len(base)} trees of depth <= 2 (leaves without orphan zero-width characters); "
@@ -1070,7 +1070,7 @@ def run(tier="quick", seed=0):
         "cursor y-top; trim_end(n): rows-n, cursor kept; pad_trim_left_right(l,r): cols+l+r, cursor x+l; pad_trim_top_bottom(t,b): rows+t+b, cursor y+t; fill_attr_apply: nothing; the other dimension is unchanged and the pop-up "
         "moves like the cursor; CanvasOverlay: bottom's size, top's cursor+(left,top) else bottom's; CanvasCombine: (cols, sum of rows), a child's cursor+(0, rows above); CanvasJoin: (sum of requested cols, max rows), a child's cursor+(cols to the left, 0)",
         True,
-        "operands: every leaf and depth-1 tree (quick: every 5th); unary parameters: everything inside the contracts' preconditions with pads <= 2 and count <= rows+1; n-ary: the depth <= 2 combine/join/overlay trees of the enumerated scope (quick: every 2nd)",
+        "operands: every leaf and every 2nd depth-1 tree (quick: every 5th); unary parameters: everything inside the contracts' preconditions with pads <= 2 and count <= rows+1; n-ary: the depth <= 2 combine/join/overlay trees of the enumerated scope (quick: every 2nd)",
     )
     gchk = Check(
         f"{ID}/canvas-protocol-degenerate",
@@ -1083,7 +1083,7 @@ def run(tier="quick", seed=0):
         chk.t0 = time.time()
     for mode in modes:
         size, leaf_ids, d0, d1, d2 = scope[mode]
-        pbase = d0 + (d1[::5] if quick else d1)
+        pbase = d0 + (d1[::5] if quick else d1[::2])
         nary = [e for e in (d1 + d2) if e[0] in ("combine", "join", "overlay")]
         if quick:
             nary = nary[::2]
